@@ -484,6 +484,11 @@ fn execute(case: &Case, plan: &[Fault], heal_after_first_failure: bool, wb_end: 
                         // (re)creating replaces whatever content was established before
                         known.remove(path);
                     }
+                    if !is_err && tries > 1 && matches!(op, Op::HCreate { .. }) && matches!(got, Res::Unit) {
+                        // the retried create_stream went through: it replaces whatever the failed
+                        // attempt had left, the stream exists and is empty
+                        tainted.remove(path);
+                    }
                     if !is_err && !matches!(got, Res::Skipped) {
                         let content = if tainted.contains(path) {
                             None
